@@ -7,3 +7,4 @@ import GoMC.Props.C15
 #print axioms GoMC.Props.C15.C15_history_any_order
 #print axioms GoMC.Props.C15.C15_writes_are_the_write
 #print axioms GoMC.Props.C15.C15_no_crash_image
+#print axioms GoMC.Props.C15.C15_crash_between_writes
